@@ -20,7 +20,7 @@ ASSUMPTIONS = [
     'reference mass matrix has condition number < 1e8 (else counted, not compared)',
     'no colliding geoms in this profile',
 ]
-TOLERANCES = {'mass_matrix': 1e-8, 'bias': 1e-8, 'passive': 1e-8, 'actuator': 1e-8, 'smooth': 1e-8, 'step_q': 1e-7,
+TOLERANCES = {'mass_matrix_after_step': 1e-7, 'second_step': 1e-6, 'mass_matrix': 1e-8, 'bias': 1e-8, 'passive': 1e-8, 'actuator': 1e-8, 'smooth': 1e-8, 'step_q': 1e-7,
               'step_qd': 1e-7, 'symmetry': 1e-12}
 FLOORS = {'free_root': 0.2, 'fixed_root': 0.2, 'slide_on_rotated': 0.2, 'stack>=2': 0.25, 'anchor': 0.15, 'actuated': 0.25}
 PROFILE = modelgen.profile(limits='wide')
@@ -49,7 +49,9 @@ def check(case, ctx=None):
     out = {'M': st.mass_mx, 'bias': dynamics.inverse(sys, st), 'passive': dynamics._passive(sys, st),  # pylint: disable=protected-access
            'tau': tau, 'smooth': dynamics.forward(sys, st, tau)}
     st1 = gp.step(sys, st, c_)
-    out['q1'], out['qd1'] = st1.q, st1.qd
+    out['q1'], out['qd1'], out['M1'] = st1.q, st1.qd, st1.mass_mx
+    st2 = gp.step(sys, st1, c_)   # a second consecutive step, without re-initialising
+    out['q2'], out['qd2'] = st2.q, st2.qd
     return out
 
   out = jax.jit(jax.vmap(f))(jp.array(q), jp.array(qd), jp.array(ctrl))
@@ -109,6 +111,21 @@ def check(case, ctx=None):
     scale = 1.0 + cond * 1e-8
     cmp('step_q', q1, qref, 1e-7 * scale)
     cmp('step_qd', out['qd1'][i], d.qvel, 1e-7 * scale)
+    # the state carried to the next step: its mass matrix belongs to the new configuration, and a second step agrees too
+    mujoco.mj_forward(mjm, d)
+    mm1 = np.zeros((nv, nv))
+    mujoco.mj_fullM(mjm, d, mm1)
+    cmp('mass_matrix_after_step', out['M1'][i], mm1, 1e-7 * scale)
+    mujoco.mj_step(mjm, d)
+    inside2 = all(r[0] + 1e-3 < d.qpos[a] < r[1] - 1e-3 for a, r in lim)
+    if inside2 and np.all(np.isfinite(d.qvel)) and np.abs(d.qvel).max() < 1e3:
+      q2, qref2 = out['q2'][i].copy(), d.qpos.copy()
+      for a in free_q:
+        if np.dot(q2[a:a + 4], qref2[a:a + 4]) < 0:
+          q2[a:a + 4] *= -1
+      cmp('second_step_q', q2, qref2, 1e-6 * scale)
+      cmp('second_step_qd', out['qd2'][i], d.qvel, 1e-6 * scale)
+      counters['second_step_compared'] = counters.get('second_step_compared', 0) + 1
   if ctx is not None:
     for n, v in worst.items():
       ctx.residual(n, v)
